@@ -264,8 +264,56 @@ def check_shipped(case):
             "sample": {"file": case["file"], "sections": names}}
 
 
+# ------------------------------------------------------------------ coverage-guided campaign (thorough tier)
+def atheris_cases(tier, seed):
+    return [{"runs": 15000, "seed": int(seed) * 16 + k, "corpus": ["empty", "shipped"][k % 2]} for k in range(16)], False
+
+
+def check_atheris(case):
+    import json
+    import shutil
+    import subprocess
+    import sys
+    try:
+        sys.path.append(os.path.join(env.VERIF_ROOT, ".deps"))
+        import atheris  # noqa: F401
+    except Exception as exc:      # noqa: BLE001
+        return {"nontrivial": False, "classes": ["atheris-unavailable"],
+                "sample": {"skipped": "atheris cannot be imported: %r" % (exc,)}}
+    work = env.fresh_dir()
+    corpus = os.path.join(work, "corpus")
+    os.makedirs(corpus)
+    if case["corpus"] == "shipped":
+        # libFuzzer mutates raw bytes that Hypothesis decodes; the shipped files are not such
+        # byte strings, so the 'shipped' variant seeds the corpus with short byte patterns instead
+        for k, blob in enumerate([b"\x00" * 64, b"\x01\x02\x03\x04" * 32, bytes(range(256))]):
+            with open(os.path.join(corpus, "seed%d" % k), "wb") as f:
+                f.write(blob)
+    out = os.path.join(work, "out.json")
+    cmd = [sys.executable, os.path.join(env.VERIF_ROOT, "drivers", "fuzz_itp.py"), env.VERIF_ROOT, out,
+           "-runs=%d" % case["runs"], "-seed=%d" % (case["seed"] % (2 ** 31) + 1), "-max_len=4096", corpus]
+    envv = dict(os.environ, VERIF_REPO=env.REPO, PYTHONHASHSEED="0")
+    proc = subprocess.run(cmd, capture_output=True, text=True, env=envv, cwd=work, timeout=3600)
+    if not os.path.exists(out):
+        from vlib.report import HarnessError
+        raise HarnessError("atheris driver produced no statistics (rc %d): %s" % (proc.returncode, proc.stderr[-500:]))
+    with open(out) as f:
+        res = json.load(f)
+    shutil.rmtree(work, ignore_errors=True)
+    if res.get("violation"):
+        # judged again by the plain oracle, so that the replay file is an ordinary C16 case
+        check_text(res["case"])
+        raise PropertyViolation(res["clause"], "found by the coverage-guided campaign: " + res["message"], cls=res["cls"])
+    return {"units": (max(1, res["executions"]), res["nontrivial"]),
+            "classes": ["atheris-campaign", "corpus:" + case["corpus"]],
+            "sample": {"libfuzzer_runs": case["runs"], "valid_executions": res["executions"],
+                       "nontrivial": res["nontrivial"], "classes": res["stats"], "corpus": case["corpus"]}}
+
+
 SUBCHECKS = [
     Sub("shipped", check_shipped, enumerate=shipped_cases, note="all shipped topologies"),
     Sub("generated", check_text, strategy=lambda tier: text_case(), quick=1500, thorough=40000,
         min_share={"repeat": 0.2, "empty-comment": 0.2, "multi-comment": 0.15}),
+    Sub("atheris", check_atheris, enumerate=atheris_cases, tiers=("thorough",),
+        note="libFuzzer bytes -> Hypothesis strategy (fuzz_one_input) -> same oracle; 16 campaigns of 15000 runs"),
 ]
